@@ -203,7 +203,15 @@ def isinstance_chain_violations(fi: FuncInfo):
             tests.setdefault(subj, []).append((n.lineno, ast.unparse(n.args[1]), n))
     # a non-literal type argument (e.g. a name looked up in a type map) counts as numeric when the function's
     # dict literals mention int/float
-    has_numeric_map = any(isinstance(d, ast.Dict) and any(isinstance(x, ast.Name) and x.id in ("int", "float") for v in d.values for x in ast.walk(v)) for d in walk_no_nested(fi.node))
+    def numeric_dict(d: ast.AST) -> bool:
+        return isinstance(d, ast.Dict) and any(isinstance(x, ast.Name) and x.id in ("int", "float") for v in d.values for x in ast.walk(v))
+
+    has_numeric_map = any(numeric_dict(d) for d in walk_no_nested(fi.node))
+    if not has_numeric_map:
+        # the type map may be a module constant the function looks names up in
+        for nm in {x.id for x in walk_no_nested(fi.node) if isinstance(x, ast.Name)}:
+            if fi.module.has_const(nm) and numeric_dict(fi.module.const_node(nm)):
+                has_numeric_map = True
     for subj, lst in tests.items():
         lst.sort(key=lambda x: x[0])
         seen_bool = False
@@ -215,6 +223,16 @@ def isinstance_chain_violations(fi: FuncInfo):
             if (any(p in ("int", "float") for p in parts) and "bool" not in parts) or dynamic_numeric:
                 # a negated test `not isinstance(v, int|float)` rejecting non-numbers also needs the bool test first
                 yield subj, node, seen_bool
+    # a numeric conversion of a parameter (float(value) / int(value)) treats True/False as 1/0 just as well: a bool test on
+    # the same name must come first
+    params = {a.arg for a in fi.node.args.args}  # type: ignore[attr-defined]
+    for n in walk_no_nested(fi.node):
+        if isinstance(n, ast.Call) and isinstance(n.func, ast.Name) and n.func.id in ("float", "int") and len(n.args) == 1 and isinstance(n.args[0], ast.Name) and n.args[0].id in params:
+            subj = n.args[0].id
+            if any(isinstance(t[2], ast.Call) and t[0] <= n.lineno and any(p.strip() in ("int", "float") for p in t[1].strip("()").replace("|", ",").split(",")) for t in tests.get(subj, [])):
+                continue  # already reported through the isinstance test that guards the conversion
+            seen_bool = any("bool" in [p.strip() for p in t[1].strip("()").replace("|", ",").split(",")] and t[0] < n.lineno for t in tests.get(subj, []))
+            yield subj, n, seen_bool
 
 
 def check_bool_before_int(run: Run, rule: str, scope: list[tuple[str, str]]) -> None:
